@@ -18,7 +18,7 @@ import ast
 
 from ..astx import assigned_names, atoms, call_name, dotted, expand, facts_at, last
 from ..cfg import CFG, Node, exprs_in_node
-from ..index import AnchorError, ancestors, walk_shallow
+from ..index import repo_root, AnchorError, ancestors, walk_shallow
 from ..selftest import Twin
 
 EXPLANATION = (
@@ -535,7 +535,25 @@ def run(chk) -> None:
 
 _P = "packages/llama-agents-core/src/llama_agents/core/iter_utils.py"
 
-_BODY_OLD = '''    async for item in merged:
+def _body_text() -> str:
+    """Current text of the buffering/flush part of debounced_sorted_prefix (everything after the merged stream is built),
+    read at import time so that the whole-block twins follow the source instead of being skipped when it is reformatted."""
+    try:
+        src = (repo_root() / _P).read_text(encoding="utf-8")
+    except OSError:
+        return "\0iter_utils.py missing"
+    marker = "    merged = merge_generators(inner, debouncer.aiter())\n"
+    i = src.find(marker)
+    j = src.find("\n\nCOMPLETE = ", i)
+    if i < 0 or j < 0:
+        return "\0debounced_sorted_prefix body not located"
+    return src[i + len(marker): j + 1]
+
+
+_BODY_OLD = _body_text()
+
+# the shape before the repair (guard reads the debouncer's flag, which another task sets before the sentinel arrives)
+_PINNED = '''    async for item in merged:
         if item == "__COMPLETE__":
             buffer.sort(key=key)
             for buffered_item in buffer:
@@ -607,16 +625,25 @@ _BROKEN_RESET_FIRST = _FIXED.replace("            for buffered_item in buffer:\n
 _BROKEN_DROP_NONE = _FIXED.replace("            if flushed:\n", "            if actual_item is None:\n                continue\n            if flushed:\n")
 
 TWINS = [
-    # R1 — relative to the repaired shape (the pinned tree already fails R1 at its only passthrough)
-    Twin("repair: local flag set by the flush branch", _P, _BODY_OLD, _FIXED, None),
-    Twin("repair, early-continue form with inverted flag", _P, _BODY_OLD, _FIXED_EARLY_CONTINUE, None),
-    Twin("repair, two-loop form (control flow instead of a flag)", _P, _BODY_OLD, _FIXED_TWO_LOOPS, None),
+    # R1 — whole-block variants (anchor = current text of the buffering/flush part, read at import time)
+    Twin("revert of the repair: passthrough guarded by debouncer.is_complete", _P, _BODY_OLD, _PINNED, "C29.R1"),
+    Twin("benign: local flag set by the flush branch (canonical form)", _P, _BODY_OLD, _FIXED, None),
+    Twin("benign: early-continue form with inverted flag", _P, _BODY_OLD, _FIXED_EARLY_CONTINUE, None),
+    Twin("benign: two-loop form (control flow instead of a flag)", _P, _BODY_OLD, _FIXED_TWO_LOOPS, None),
     Twin("flag refreshed from the debouncer on every item", _P, _BODY_OLD, _BROKEN_REFRESH, "C29.R1"),
     Twin("flag also set when the debouncer reports completion", _P, _BODY_OLD, _BROKEN_SET_OUTSIDE, "C29.R1"),
     Twin("passthrough under `flushed or debouncer.is_complete`", _P, _BODY_OLD, _BROKEN_OR, "C29.R1"),
     Twin("flag polarity inverted", _P, _BODY_OLD, _BROKEN_POLARITY, "C29.R1"),
-    Twin("guard removed: every item passes through once the debouncer exists", _P, "            if debouncer.is_complete:\n                yield actual_item", "            if True:\n                yield actual_item", "C29.R1"),
-    Twin("benign: guard through the event itself (still foreign, same finding)", _P, "            if debouncer.is_complete:\n", "            if debouncer.complete_signal.is_set():\n", None),
+    # R1 — small anchors on the repaired text
+    Twin("guard back on the debouncer's flag", _P, "            if flushed:\n                yield actual_item", "            if debouncer.is_complete:\n                yield actual_item", "C29.R1"),
+    Twin("guard through the event itself", _P, "            if flushed:\n                yield actual_item", "            if debouncer.complete_signal.is_set():\n                yield actual_item", "C29.R1"),
+    Twin("guard removed: every item passes through", _P, "            if flushed:\n                yield actual_item", "            if True:\n                yield actual_item", "C29.R1"),
+    Twin("flag set before the loop instead of in the flush branch", _P, "    flushed = False\n", "    flushed = debounce_seconds <= 0\n", "C29.R1"),
+    Twin("flag never set (flush branch forgets it)", _P, "            flushed = True\n            buffer.sort", "            buffer.sort", "C29.R1"),
+    Twin("benign: flag set after the burst was yielded", _P, "            flushed = True\n            buffer.sort(key=key)\n            for buffered_item in buffer:\n                yield buffered_item\n            buffer = []\n",
+         "            buffer.sort(key=key)\n            for buffered_item in buffer:\n                yield buffered_item\n            buffer = []\n            flushed = True\n", None),
+    Twin("benign: negated test with swapped branches", _P, "            if flushed:\n                yield actual_item\n            else:\n                debouncer.extend_window()\n                buffer.append(actual_item)\n",
+         "            if not flushed:\n                debouncer.extend_window()\n                buffer.append(actual_item)\n            else:\n                yield actual_item\n", None),
     # R3
     Twin("flush skips the first buffered element", _P, "            for buffered_item in buffer:\n", "            for buffered_item in buffer[1:]:\n", "C29.R3"),
     Twin("buffer emptied before the burst is yielded", _P, _BODY_OLD, _BROKEN_RESET_FIRST, "C29.R3"),
